@@ -176,7 +176,11 @@ def findGroup (dag : Dag) (m : Maps) (ord : Nat → List Nat → List Nat) (dfsF
 def groupDeps (dag : Dag) (group : List Nat) : List Nat :=
   group.flatMap (fun g => (depsOf dag g).filter (fun o => !decide (o ∈ group)))
 
-def freshName (dag : Dag) : Nat := (dag.map (·.name)).foldl max 0 + 1
+/-- every name occurring in the plan (as a node or as an operand) -/
+def allNames (dag : Dag) : List Nat := dag.flatMap (fun nd => nd.name :: nd.deps)
+
+/-- a name not occurring in the plan (the new `Fused` expression has a new `_name`) -/
+def freshName (dag : Dag) : Nat := (allNames dag).foldl max 0 + 1
 
 /-- `Fused(group, *group_deps)`: meta / divisions (`npart`, `ndim`) are those of `group[0]` -/
 def fusedNode (dag : Dag) (group : List Nat) : Node :=
@@ -247,31 +251,48 @@ def enumFrom {α} : Nat → List α → List (Nat × α)
   | _, [] => []
   | n, a :: as => (n, a) :: enumFrom (n+1) as
 
+/-- the partition of member `m` that a fused task for partition `index` computes:
+    `Fused._broadcast_dep(m)` (= `m.npartitions == 1`) selects partition 0 -/
+def ixOf (m : Node) (index : Nat) : Nat := if m.npart == 1 then 0 else index
+
+/-- `graph[(m._name, ix)] = m._task(ix)` for an ordinary member -/
+def plainWrite (dag : Dag) (m : Node) (index : Nat) : FKey × Tsk FKey :=
+  (FKey.part m.name (ixOf m index), plainTask dag m (ixOf m index))
+
+/-- `graph[self._blockwise_arg(dep, index)] = "_" + str(i)` for every dependency -/
+def phWrites (dag : Dag) (f : Node) (index : Nat) : List (FKey × Tsk FKey) :=
+  (enumFrom 0 f.deps).map (fun (j, d) => (argKey dag f index d, Tsk.alias (FKey.ph j)))
+
+/-- the writes of one iteration of `for _expr in self.exprs`; `nested m` are the writes of the
+    sub-graph of a nested `Fused` member -/
+def blockOf (dag : Dag) (index : Nat) (nested : Node → List (FKey × Tsk FKey)) (mn : Nat) :
+    List (FKey × Tsk FKey) :=
+  match getNode dag mn with
+  | none => []
+  | some m =>
+    if m.members ≠ [] then
+      -- subgraph, name = _expr._task(index)[1:3]; graph.update(subgraph); graph[(name, index)] = name
+      nested m ++ [(FKey.part m.name index, Tsk.alias (FKey.top m.name))]
+    else
+      -- elif self._broadcast_dep(_expr): graph[(name, 0)] = _expr._task(0) else graph[(name, index)] = _expr._task(index)
+      [plainWrite dag m index]
+
 /-- the dict built by `Fused._task(index)` as its list of writes, in program order
     (a later write to the same key wins).  `fuel` bounds the nesting depth. -/
-def fusedWrites (dag : Dag) : Nat → Node → Nat → List (FKey × Tsk FKey)
-  | 0, _, _ => []
-  | fuel+1, f, index =>
+def fusedWrites (dag : Dag) (index : Nat) : Nat → Node → List (FKey × Tsk FKey)
+  | 0, _ => []
+  | fuel+1, f =>
     [(FKey.top f.name, Tsk.alias (FKey.part (f.members.headD 0) index))] ++
-    f.members.flatMap (fun mn =>
-      match getNode dag mn with
-      | none => []
-      | some m =>
-        if m.members ≠ [] then
-          -- subgraph, name = _expr._task(index)[1:3]; graph.update(subgraph); graph[(name, index)] = name
-          fusedWrites dag fuel m index ++ [(FKey.part m.name index, Tsk.alias (FKey.top m.name))]
-        else if m.npart == 1 then            -- Fused._broadcast_dep(_expr)
-          [(FKey.part m.name 0, plainTask dag m 0)]
-        else
-          [(FKey.part m.name index, plainTask dag m index)]) ++
-    (enumFrom 0 f.deps).map (fun (j, d) => (argKey dag f index d, Tsk.alias (FKey.ph j)))
+    f.members.flatMap (blockOf dag index (fun m => fusedWrites dag index fuel m)) ++
+    phWrites dag f index
 
 def lastWrite {κ} [DecidableEq κ] {β} (ws : List (κ × β)) (k : κ) : Option β :=
   ws.reverse.lookup k
 
-/-- the sub-graph handed to `Fused._execute_task` -/
+/-- the sub-graph handed to `Fused._execute_task`.  Nesting depth is bounded by `f.name + 1`:
+    a `Fused` expression is created after its members, so names decrease along nesting. -/
 def fusedGraph (dag : Dag) (f : Node) (index : Nat) : Graph FKey :=
-  lastWrite (fusedWrites dag (dag.length + 1) f index)
+  lastWrite (fusedWrites dag index (f.name + 1) f)
 
 /-- the positional arguments after `(Fused._execute_task, graph, name, …)`:
     `self._blockwise_arg(dep, index)` for every dependency -/
